@@ -20,6 +20,8 @@ pub struct Case {
     pub pre: String,
     pub post_raw: String,
     pub error_variants: Vec<String>,
+    /// signature of the known finding `optimiser cancels the data-cast check`
+    pub cast_check_removed: bool,
     /// when pre- and post-optimisation outcomes differ: the first optimiser phase that changes the outcome
     pub optimiser_attribution: Option<String>,
 }
@@ -127,6 +129,7 @@ pub fn explore(seed: u64, idx: u64, setting: usize, n_args: usize, labels_total:
                 pre: read_back(&pre, &f.ret, &p.module),
                 post_raw: format!("{:?}", post).chars().take(200).collect(),
                 error_variants: errs,
+                cast_check_removed: comp::cast_check_removed(&pre, &post),
             });
             calls.push((fi, args.clone()));
         }
@@ -208,6 +211,17 @@ pub fn run(ctx: &Ctx) -> Report {
                     );
                     continue;
                 }
+            }
+            if c.cast_check_removed && model == "abort" && c.pre == "abort" {
+                rep.count("known:optimiser-cancels-data-cast-check");
+                comp::fail_shared(
+                    &mut rep,
+                    &format!("c01:{}", comp::CAST_KEY_SUFFIX),
+                    "the optimiser cancels <x>Data(un<X>Data d), removing the shape check of an `expect`: source semantics and unoptimised program abort, the optimised program returns",
+                    replay,
+                    json!({"source_semantics": model, "compiled": c.post, "compiled_pre_optimisation": c.pre, "attribution": c.optimiser_attribution, "case": c.key}),
+                );
+                continue;
             }
             let blame = if c.pre == *model {
                 "the optimiser (the pre-optimisation program agrees with the source semantics)"
